@@ -88,6 +88,38 @@ fn prog_pairs(kinds: &[&str], prefix: &str, self_only: bool, quick: Option<usize
     v
 }
 
+/// programs with three ([[a],[b],[c]]) or four ([[a],[b],[c],[d]]) caller threads over a core alphabet
+fn prog_threads(threads: usize, alphabet: &[&str], prefix: &str, quick: Option<usize>, thorough: usize, quick_stride: usize, thorough_stride: usize) -> Vec<Item> {
+    let mut v = vec![];
+    let codes: Vec<i64> = alphabet.iter().map(|k| crate::scenarios::prog::op_code(k)).collect();
+    let mut idx = 0usize;
+    let mut tuple = vec![0usize; threads];
+    loop {
+        // only non-decreasing tuples: the threads are symmetric, a permutation of the same operations is the same program
+        if tuple.windows(2).all(|w| w[0] <= w[1]) {
+            idx += 1;
+            if idx % thorough_stride == 0 {
+                let q = if idx % quick_stride == 0 { quick } else { None };
+                let names = ["a", "b", "c", "d"];
+                let ops: Vec<String> = tuple.iter().enumerate().map(|(i, t)| format!("{}={}", names[i], codes[*t])).collect();
+                v.push(small(it("prog", &format!("{},t={},{}", prefix, threads, ops.join(",")), q, thorough)));
+            }
+        }
+        let mut i = threads;
+        loop {
+            if i == 0 {
+                return v;
+            }
+            i -= 1;
+            tuple[i] += 1;
+            if tuple[i] < codes.len() {
+                break;
+            }
+            tuple[i] = 0;
+        }
+    }
+}
+
 /// the same instances again with the saturated-start prelude (pool pinned, stale schedule entry, released by the environment)
 fn with_pre(v: &mut Vec<Item>, picks: &[(&'static str, &str)], quick: Option<usize>, thorough: usize) {
     for (sc, cfg) in picks {
@@ -134,6 +166,26 @@ pub fn plan(prop: &str) -> Vec<Item> {
                 v.push(i);
             }
         }
+    }
+    // generated programs with three and four caller threads
+    const CORE: &[&str] = &["D", "S", "T", "FDa", "FSa", "AF", "FDx", "Dx", "FDs"];
+    match prop {
+        "C01" => {
+            v.extend(prog_threads(3, CORE, "pool=1", Some(1), 1, 11, 1));
+            v.extend(prog_threads(4, &CORE[..6], "pool=1", Some(0), 0, 2, 1));
+            v.extend(prog_threads(3, &CORE[..6], "pool=2", Some(0), 0, 4, 1));
+        }
+        "C02" => {
+            v.extend(prog_threads(3, CORE, "pool=1", Some(1), 1, 13, 1));
+            v.extend(prog_threads(4, &CORE[..6], "pool=1", Some(0), 0, 3, 1));
+        }
+        "C03" => {
+            v.extend(prog_threads(3, CORE, "pool=1", Some(1), 1, 14, 1));
+            v.extend(prog_threads(3, &["D", "S", "T", "FDs"], "pool=0", Some(1), 1, 3, 1));
+        }
+        "C04" => v.extend(prog_threads(3, &["S", "D", "FDa", "FDs", "T"], "pool=1", Some(1), 1, 5, 1)),
+        "C09" => v.extend(prog_threads(3, &["T", "S", "D", "FDa", "FSa"], "pool=1", Some(1), 1, 5, 1)),
+        _ => {}
     }
     // generated programs with a saturated start
     match prop {
